@@ -1399,8 +1399,10 @@ func loopEnum(args []string, w *bufio.Writer) {
 		"tcancel 1 ; sched 1 once 0 op=+", "tcancel 1 ; sched 1 once 1 op=+", "tcancel 1 ; sched 1 rep 2 op=+",
 		"sched 1 once 1 op=+ ; sleep 3 ; poll", "tcancel 1 ; sched 1 once 1 op=+ ; sleep 3 ; poll", "sched 1 once 1 op=+ ; tcancel 1",
 		"sched 1 once 1 op=+ ; sleep 3 ; poll ; tcancel 1", "scheduled 1 ; sched 1 once 2 op=+ ; scheduled 1", "post op=+ ; poll",
+		// a second repeating schedule started and fired (nested poll) inside the first one's callback, cancelling there
+		"tcancel 1 ; sched 1 rep 1 op=12 ; sleep 3 ; poll", "sched 1 rep 1 op=12 ; sleep 3 ; poll",
 	} {
-		emit("obj 1 timer", "prog 11 "+body, "sched 1 rep 1 op=11", "sleep 2", "poll", "pending", "scheduled 1", "sleep 3", "poll", "pending",
+		emit("obj 1 timer", "prog 11 "+body, "prog 12 tcancel 1", "sched 1 rep 1 op=11", "sleep 2", "poll", "pending", "scheduled 1", "sleep 3", "poll", "pending",
 			"sleep 3", "poll", "pending", "scheduled 1", "tcancel 1", "pending")
 	}
 	emit("obj 1 listener", "obj 2 tcp", "prog 12 close 1", "prog 11 close 2", "accept 1 op=11", "read 2 4 op=12", "peer 1 connect", "peer 2 write 4", "poll", "pending", "poll", "pending")
